@@ -584,6 +584,11 @@ fn family_prop(ctx: &RunCtx, fams: &[&str]) -> i32 {
     let e2e = fams.contains(&"e2e");
     let k = fams.len() as u64;
     let agg = run_parallel(prop, n, &ctx.known, |i| {
+        if prop == "C14" && i < 40 {
+            // conformance self-test of the instrumented transport itself
+            let model = if i % 2 == 0 { Model::Coupled } else { Model::Independent };
+            return crate::mock::selftest(mix(seed, i), model, 1 + (i as usize / 2) % 4);
+        }
         let fam = fams[(i % k) as usize];
         let idx = i / k;
         match fam {
@@ -880,6 +885,8 @@ fn server_required_cells(prop: &str) -> Vec<String> {
             "C14.server.pending.poll_ready.Coupled",
             "C14.server.pending.poll_ready.Independent",
             "C14.server.pending.poll_flush.Coupled",
+            "C14.mock-selftest.Coupled",
+            "C14.mock-selftest.Independent",
         ],
         _ => vec![],
     };
